@@ -10,7 +10,11 @@ import (
 // Normalize rewrites, after type checking, spellings that differ without a difference in meaning into one form, so
 // that the rules see one idiom: `x += 1` and `x -= 1` (constant one, integer x) become `x++` and `x--`. The
 // identifier and expression nodes keep their identity, so every types.Info entry stays valid; the statement node is
-// replaced in the list that holds it. Rules that report source text print the normal form.
+// replaced in the list that holds it. Rules that report source text print the normal form. And an else branch behind
+// a then-branch that always leaves (`if c { …; return } else { B }`) is taken out of the if: its statements follow the
+// if in the list that holds it, as the code is written everywhere in the library (unnestElse). The order of the
+// statements in the text is kept, so positions still nest; the objects of types.Info do not depend on the block a
+// statement stands in.
 func Normalize(info *types.Info, f *ast.File) int {
 	n := 0
 	fix := func(s ast.Stmt) ast.Stmt {
@@ -45,10 +49,13 @@ func Normalize(info *types.Info, f *ast.File) int {
 	ast.Inspect(f, func(x ast.Node) bool {
 		switch v := x.(type) {
 		case *ast.BlockStmt:
+			v.List = unnestElse(info, v.List, &n)
 			fixList(v.List)
 		case *ast.CaseClause:
+			v.Body = unnestElse(info, v.Body, &n)
 			fixList(v.Body)
 		case *ast.CommClause:
+			v.Body = unnestElse(info, v.Body, &n)
 			fixList(v.Body)
 		case *ast.ForStmt:
 			if v.Post != nil {
@@ -173,4 +180,64 @@ func callFree(info *types.Info, e ast.Expr) bool {
 		return ok
 	})
 	return ok
+}
+
+// unnestElse rewrites, in one statement list, every `if c { …; leaves } else { B… }` to `if c { …; leaves }; B…` and
+// every `if c { …; leaves } else if d { … }` to two statements. The then-branch leaves when its last statement is a
+// return, a continue, break or goto, or a call of panic.
+func unnestElse(info *types.Info, list []ast.Stmt, n *int) []ast.Stmt {
+	leaves := func(b *ast.BlockStmt) bool {
+		if b == nil || len(b.List) == 0 {
+			return false
+		}
+		switch x := b.List[len(b.List)-1].(type) {
+		case *ast.ReturnStmt:
+			return true
+		case *ast.BranchStmt:
+			return x.Tok == token.CONTINUE || x.Tok == token.BREAK || x.Tok == token.GOTO
+		case *ast.ExprStmt:
+			if c, ok := x.X.(*ast.CallExpr); ok {
+				if id, isID := c.Fun.(*ast.Ident); isID && id.Name == "panic" {
+					if _, isB := info.Uses[id].(*types.Builtin); isB {
+						return true
+					}
+				}
+			}
+		}
+		return false
+	}
+	changed := false
+	for _, st := range list {
+		if ifs, ok := st.(*ast.IfStmt); ok && ifs.Else != nil && leaves(ifs.Body) {
+			changed = true
+		}
+	}
+	if !changed {
+		return list
+	}
+	out := make([]ast.Stmt, 0, len(list)+4)
+	var add func(st ast.Stmt)
+	add = func(st ast.Stmt) {
+		ifs, ok := st.(*ast.IfStmt)
+		if !ok || ifs.Else == nil || !leaves(ifs.Body) {
+			out = append(out, st)
+			return
+		}
+		els := ifs.Else
+		ifs.Else = nil
+		*n++
+		out = append(out, ifs)
+		switch e := els.(type) {
+		case *ast.BlockStmt:
+			for _, s2 := range e.List {
+				add(s2)
+			}
+		default:
+			add(els)
+		}
+	}
+	for _, st := range list {
+		add(st)
+	}
+	return out
 }
